@@ -179,6 +179,8 @@ pub struct World {
     pub dev: SimDevice,
     /// per controller: unread response bytes
     pub outq: Vec<Vec<u8>>,
+    /// content already in the response buffer handed to the next `exec_send` (consumed by it)
+    pub prefill: Vec<u8>,
 }
 
 fn snap_reg(r: &scpi_contrib::scpi1999::EventRegister) -> RegSnap {
@@ -201,6 +203,7 @@ impl World {
             tree: build_tree(&cfg.tree),
             dev,
             outq: vec![Vec::new(); cfg.controllers.max(1) as usize],
+            prefill: Vec::new(),
         })
     }
 
@@ -216,6 +219,7 @@ impl World {
                 d
             },
             outq: vec![Vec::new(); self.cfg.controllers.max(1) as usize],
+            prefill: Vec::new(),
         }
     }
 
@@ -307,6 +311,7 @@ impl World {
         ctx.mav = mav;
 
         let tree = self.tree;
+        let prefill = std::mem::take(&mut self.prefill);
         let dev = &mut self.dev;
         let mut out: Vec<u8> = Vec::new();
         let mut fmt_calls = 0usize;
@@ -314,7 +319,7 @@ impl World {
         alloc::reset();
         let r = catch_unwind(AssertUnwindSafe(|| match &step.fmt {
             FmtCfg::Vec => {
-                let mut f: Vec<u8> = Vec::new();
+                let mut f: Vec<u8> = prefill.clone();
                 alloc::set_armed(true);
                 let r = tree.run(&bytes, dev, &mut ctx, &mut f);
                 alloc::set_armed(false);
@@ -323,7 +328,7 @@ impl World {
             }
             FmtCfg::Array { cap } => {
                 alloc::set_armed(true);
-                let r = run_array(*cap, tree, &bytes, dev, &mut ctx);
+                let r = run_array(*cap, tree, &bytes, dev, &mut ctx, &prefill);
                 alloc::set_armed(false);
                 match r {
                     Some((r, o)) => {
